@@ -57,6 +57,10 @@ EDIT_CLASSES = [
     # a type so far only in the error position of a `Result` starts being emitted; a member-less type changes its kind
     ("emit_error_type", False, "EventHashData", "payload_type"),
     ("unit_kind", False, "StructHashData", "is_enum"),
+    # what the tool does not read today (the payload type of a tuple variant, `#[deprecated]` on a command): editing it
+    # changes nothing that is generated - and if it ever starts to matter it has to enter the key as well
+    ("variant_payload", False, "FieldHashData", "variant_payload_type"),
+    ("cmd_deprecated", False, "CommandHashData", "deprecated"),
     ("cmd_order", False, "CommandHashData", "name"),
     ("param_order", False, "ParameterHashData", "name"),
     ("field_order", False, "FieldHashData", "name"),
@@ -84,7 +88,7 @@ def render_sources(st):
     fty = alt(g("struct_field_type"), ["String", "Option<String>", "Vec<String>"])
     skip = alt(g("field_skip"), ["", "    #[serde(skip)]\n"])
     extra = "".join("    pub extra_%d: i32,\n" % i for i in range(g("struct_field_add") % 3))
-    variant = "".join("    Extra%d,\n" % i for i in range(g("enum_variant") % 3))
+    variant = "".join("    Extra%d,\n" % i for i in range(g("enum_variant") % 3)) + "    Carried(%s),\n" % alt(g("variant_payload"), ["u32", "String", "Vec<u8>"])
     vren = alt(g("variant_rename"), ["", '    #[serde(rename = "on")]\n', '    #[serde(rename = "enabled")]\n'])
     cmd = alt(g("cmd_name"), ["get_user", "fetch_user", "load_user"])
     cra = alt(g("cmd_rename_all"), ["", '#[serde(rename_all = "snake_case")]\n', '#[serde(rename_all = "PascalCase")]\n'])
@@ -134,8 +138,9 @@ def render_sources(st):
         "use serde::{Deserialize, Serialize};\nuse tauri::Emitter;\nuse crate::models::*;\n\n"
         "#[derive(Debug, Clone, Default, Serialize, Deserialize)]\npub struct AppError {\n    pub code: i32,\n    pub reason: String,\n}\n\n"
         "#[derive(Debug, Clone, Serialize, Deserialize)]\n%s\n\n"
-        "#[tauri::command]\npub fn risky(app: tauri::AppHandle, token: Token) -> Result<u8, AppError> {\n%s%s    Ok(1)\n}\n"
+        "%s#[tauri::command]\npub fn risky(app: tauri::AppHandle, token: Token) -> Result<u8, AppError> {\n%s%s    Ok(1)\n}\n"
         % (alt(g("unit_kind"), ["pub struct Token;", "pub enum Token {}", "pub struct Token {}"]),
+           alt(g("cmd_deprecated"), ["", "#[deprecated]\n", '#[deprecated(note = "use `safer` instead")]\n', '#[deprecated = "going away"]\n']),
            alt(g("emit_error_type"), ["", '    app.emit("risky-failed", AppError { code: 1, reason: String::new() }).ok();\n']),
            "" if st.get("_noevents", False) else "".join(dup)))
     files["src/stream.rs"] = (
@@ -321,7 +326,10 @@ class Sandbox:
             names += ["dependency-graph.txt", "dependency-graph.dot"]
         return names
 
-    def run(self, forced=False, fault=None, kind=None, leftover=None):
+    def run(self, forced=False, fault=None, kind=None, leftover=None, path=None):
+        # `path`: this run goes through the CLI ("cli") or the build script ("build") whatever the sandbox was made for
+        # (histories that mix the two entry points over one output directory)
+        use_build = self.build if path is None else (path == "build")
         undo = self.obstacle(fault, kind) if fault is not None else None
         undo_left = None
         if leftover and kind == "probe":
@@ -350,14 +358,15 @@ class Sandbox:
                 undo_left()
                 undo_left = None
         before = proc.snapshot(self.out) if os.path.isdir(self.out) else {}
-        if self.build:
+        if use_build:
             if forced:
                 # force through the configuration file on the build path
                 p = os.path.join(self.root, "typegen.json")
                 cfg = json.load(open(p))
                 cfg["force"] = True
                 json.dump(cfg, open(p, "w"))
-            rc, so, se = proc.run_build(self.root)
+            os.makedirs(os.path.join(self.root, "cargo_out"), exist_ok=True)
+            rc, so, se = proc.run_build(self.root, extra_env={"OUT_DIR": os.path.join(self.root, "cargo_out")} if path is not None else None)
             if forced:
                 self.sync()
         else:
@@ -375,7 +384,7 @@ class Sandbox:
             action = "upToDate"
         elif "No Tauri commands found" in so:
             action = "noCommands"
-        elif self.build:
+        elif use_build:
             action = "noCommands" if self.state.get("_nocommands") else ("generated" if written else "upToDate")
         else:
             action = "generated"
@@ -433,7 +442,7 @@ def execute(steps, build=False, name="hist"):
             elif st["k"] == "delete":
                 sb.delete(st["file"])
             elif st["k"] == "run":
-                obs.append(sb.run(forced=st.get("forced", False), fault=st.get("fault"), kind=st.get("kind"), leftover=st.get("leftover")))
+                obs.append(sb.run(forced=st.get("forced", False), fault=st.get("fault"), kind=st.get("kind"), leftover=st.get("leftover"), path=st.get("path")))
     finally:
         sb.close()
     return obs
